@@ -209,11 +209,17 @@ Definition update_block (s : store) (b : positive) : store * res unit :=
 (* tuple comparison (a1,a2) <= (b1,b2) *)
 Definition pair_le (a b : Z * Z) : bool :=
   (fst a <? fst b) || ((fst a =? fst b) && (snd a <=? snd b)).
+(* tuple comparison (a1,a2) < (b1,b2) *)
+Definition pair_lt (a b : Z * Z) : bool :=
+  (fst a <? fst b) || ((fst a =? fst b) && (snd a <? snd b)).
 
 Definition sum_lines (tk : tokmap) (ts : list positive) : Z :=
   fold_left (fun acc t => acc + line (t_size (tget tk t))) ts 0.
 
-(* _splice(tokens, start, end) *)
+(* _splice(tokens, start, end).  The reuse guard is
+     token.store_handle is not None and not (block.store is self and start <= (block.index, index) < end);
+   the model has a single store (every handle refers to this store's heap), so `block.store is self`
+   has no counterpart here. *)
 Definition splice_ (s : store) (tokens : list positive) (st en : Z * Z) : store * res unit :=
   let '(start_i, start_j) := st in
   let '(end_i, end_j) := en in
@@ -222,7 +228,7 @@ Definition splice_ (s : store) (tokens : list positive) (st en : Z * Z) : store 
        | None => false
        | Some (hb, hi) =>
          let p := (b_index (bget (s_heap s) hb), hi) in
-         negb (pair_le st p && pair_le p en)
+         negb (pair_le st p && pair_lt p en)
        end) tokens
   then (s, Err ValueError)
   else if start_i =? end_i then
